@@ -37,14 +37,27 @@ Fixpoint nthd (l : list A) (i : nat) {struct l} : A :=
   | cons x t => match i with O => x | S j => nthd t j end
   end.
 
-(* MPS_MATRIX_ELEM (M, i, j, n) = M[(i) * (n) + (j)] : row major *)
+(* MPS_MATRIX_ELEM (M, i, j, n) = M[(i) * (n) + (j)] : row major storage, the
+   accessor of the C code *)
 Definition elem (H : list A) (n i j : nat) : A := nthd H (i * n + j).
+
+(* the same matrix given as the list of its rows (used by the extracted oracle:
+   with unary indices i * n + j costs O(n^2) per access) *)
+Fixpoint nth_row (rows : list (list A)) (i : nat) {struct rows} : list A :=
+  match rows with
+  | nil => nil
+  | cons r t => match i with O => r | S j => nth_row t j end
+  end.
+Definition elem_rows (rows : list (list A)) (i j : nat) : A := nthd (nth_row rows i) j.
+
+(* The recurrence below is written over an accessor [h i j] of the matrix entries
+   ([elem H n] for the C storage). *)
 
 (* coefficient multiplying vec[l] in row i when column l-1 is merged into the
    compressed column: H[i,l-1], with the shift subtracted on the diagonal
    (i = l-1: "the last step require the extra accounting for the shifted case") *)
-Definition coef (H : list A) (n : nat) (s : A) (l i : nat) : A :=
-  if Nat.eqb (S i) l then osub o (elem H n i i) s else elem H n i (pred l).
+Definition coef (h : nat -> nat -> A) (s : A) (l i : nat) : A :=
+  if Nat.eqb (S i) l then osub o (h i i) s else h i (pred l).
 
 (* rows i, i+1, ... (k of them) of  a(i) * vl - vec[i] * c *)
 Fixpoint compress (a : nat -> A) (vl c : A) (i k : nat) (vec : list A) {struct k} : list A :=
@@ -55,33 +68,40 @@ Fixpoint compress (a : nat -> A) (vl c : A) (i k : nat) (vec : list A) {struct k
   end.
 
 (* one iteration of the while loop, local_n = l (after the decrement), l >= 1 *)
-Definition step (H : list A) (n : nat) (s : A) (l : nat) (vec : list A) : list A :=
-  compress (coef H n s l) (nthd vec l) (elem H n l (pred l)) 0 l vec.
+Definition step (h : nat -> nat -> A) (s : A) (l : nat) (vec : list A) : list A :=
+  compress (coef h s l) (nthd vec l) (h l (pred l)) 0 l vec.
 
-Fixpoint loop (H : list A) (n : nat) (s : A) (l : nat) (vec : list A) {struct l} : list A :=
+Fixpoint loop (h : nat -> nat -> A) (s : A) (l : nat) (vec : list A) {struct l} : list A :=
   match l with
   | O => vec
-  | S l' => loop H n s l' (step H n s l vec)
+  | S l' => loop h s l' (step h s l vec)
   end.
 
 Fixpoint mkvec (f : nat -> A) (i k : nat) {struct k} : list A :=
   match k with O => nil | S k' => cons (f i) (mkvec f (S i) k') end.
 
 (* vec[i] = H[i,n-1]; vec[n-1] -= shift  (f and m variants) *)
-Definition init_vec (H : list A) (n : nat) (s : A) : list A := mkvec (coef H n s n) 0 n.
+Definition init_vec (h : nat -> nat -> A) (n : nat) (s : A) : list A := mkvec (coef h s n) 0 n.
 
 (* mps_fhessenberg_shifted_determinant without the rescaling (exact arithmetic),
    = the arithmetic of mps_mhessenberg_shifted_determinant *)
-Definition hess_rec (H : list A) (n : nat) (s : A) : A :=
-  nthd (loop H n s (pred n) (init_vec H n s)) 0.
+Definition hess_rec_acc (h : nat -> nat -> A) (n : nat) (s : A) : A :=
+  nthd (loop h s (pred n) (init_vec h n s)) 0.
+
+Definition hess_rec (H : list A) (n : nat) (s : A) : A := hess_rec_acc (elem H n) n s.
+Definition hess_rec_rows (rows : list (list A)) (n : nat) (s : A) : A := hess_rec_acc (elem_rows rows) n s.
 
 (* mps_dhessenberg_shifted_determinant AS CODED:  cdpe_sub_eq (vec[n], shift)
    writes one element past the n-vector and leaves vec[n-1] = H[n-1,n-1] unshifted *)
-Definition init_vec_dcoded (H : list A) (n : nat) : list A :=
-  mkvec (fun i => elem H n i (pred n)) 0 n.
+Definition init_vec_dcoded (h : nat -> nat -> A) (n : nat) : list A :=
+  mkvec (fun i => h i (pred n)) 0 n.
 
-Definition dhess_rec_coded (H : list A) (n : nat) (s : A) : A :=
-  nthd (loop H n s (pred n) (init_vec_dcoded H n)) 0.
+Definition dhess_rec_coded_acc (h : nat -> nat -> A) (n : nat) (s : A) : A :=
+  nthd (loop h s (pred n) (init_vec_dcoded h n)) 0.
+
+Definition dhess_rec_coded (H : list A) (n : nat) (s : A) : A := dhess_rec_coded_acc (elem H n) n s.
+Definition dhess_rec_coded_rows (rows : list (list A)) (n : nat) (s : A) : A :=
+  dhess_rec_coded_acc (elem_rows rows) n s.
 
 (* ... and with the index repaired (vec[n-1]) it is the f variant's recurrence *)
 Definition dhess_rec_fixed (H : list A) (n : nat) (s : A) : A := hess_rec H n s.
@@ -102,18 +122,18 @@ Fixpoint map_scale (k : K) (vec : list A) : list A :=
 Definition rescale (k : K) (st : list A * K) : list A * K :=
   (map_scale k (fst st), kadd (snd st) k).
 
-Fixpoint loop_scaled (pol : nat -> list A -> K) (H : list A) (n : nat) (s : A) (l : nat)
+Fixpoint loop_scaled (pol : nat -> list A -> K) (h : nat -> nat -> A) (s : A) (l : nat)
          (st : list A * K) {struct l} : list A * K :=
   match l with
   | O => st
   | S l' =>
-      let v := step H n s l (fst st) in
-      loop_scaled pol H n s l' (rescale (pol l v) (v, snd st))
+      let v := step h s l (fst st) in
+      loop_scaled pol h s l' (rescale (pol l v) (v, snd st))
   end.
 
 (* (mantissa, exponent) pair returned by mps_fhessenberg_shifted_determinant *)
 Definition fhess_scaled (pol : nat -> list A -> K) (k0 : K) (H : list A) (n : nat) (s : A) : A * K :=
-  let st := loop_scaled pol H n s (pred n) (init_vec H n s, k0) in
+  let st := loop_scaled pol (elem H n) s (pred n) (init_vec (elem H n) n s, k0) in
   (nthd (fst st) 0, snd st).
 
 End Model.
@@ -124,6 +144,12 @@ Arguments osub {A}.
 Arguments omul {A}.
 Arguments nthd {A}.
 Arguments elem {A}.
+Arguments nth_row {A}.
+Arguments elem_rows {A}.
+Arguments hess_rec_acc {A}.
+Arguments hess_rec_rows {A}.
+Arguments dhess_rec_coded_acc {A}.
+Arguments dhess_rec_coded_rows {A}.
 Arguments coef {A}.
 Arguments compress {A}.
 Arguments step {A}.
@@ -172,21 +198,22 @@ Fixpoint compress_err (a : nat -> A) (vl c : A) (el : E) (i k : nat)
   | _, _, _ => nil
   end.
 
-Definition step_err (H : list A) (n : nat) (s : A) (l : nat) (vec : list A) (err : list E) : list E :=
+Definition step_err (h : nat -> nat -> A) (s : A) (l : nat) (vec : list A) (err : list E) : list E :=
   let vl := nthd o vec l in
   let el := eadd (nthe err l) (emul (nrm vl) eps) in
-  compress_err (coef o H n s l) vl (elem o H n l (pred l)) el 0 l vec err.
+  compress_err (coef o h s l) vl (h l (pred l)) el 0 l vec err.
 
-Fixpoint loop_err (H : list A) (n : nat) (s : A) (l : nat) (st : list A * list E) {struct l}
+Fixpoint loop_err (h : nat -> nat -> A) (s : A) (l : nat) (st : list A * list E) {struct l}
   : list A * list E :=
   match l with
   | O => st
-  | S l' => loop_err H n s l' (step o H n s l (fst st), step_err H n s l (fst st) (snd st))
+  | S l' => loop_err h s l' (step o h s l (fst st), step_err h s l (fst st) (snd st))
   end.
 
 (* (output, error) of mps_mhessenberg_shifted_determinant *)
 Definition mhess_rec (H : list A) (n : nat) (s : A) : A * E :=
-  let st := loop_err H n s (pred n) (init_vec o H n s, mkvec (fun _ => e0) 0 n) in
+  let h := elem o H n in
+  let st := loop_err h s (pred n) (init_vec o h n s, mkvec (fun _ => e0) 0 n) in
   (nthd o (fst st) 0, nthe (snd st) 0).
 
 End ErrVec.
